@@ -46,12 +46,149 @@ Qed.
 Lemma sub_go_skip d : forall s r, sub_go d (String.length s) (s ++ r)%string = sub_go d 0 r.
 Proof. induction s as [|a s IH]; intros r; [reflexivity|]. cbn [String.length append sub_go]. apply IH. Qed.
 
-Lemma sub_go_lit d s r : no_lg s = true -> sub_go d 0 (s ++ r)%string = (s ++ sub_go d 0 r)%string.
+(* ---------------------------------------------------------------- literal text with '<' in it
+   A position of the text is "bad" when exactly three '<' begin there: only there can tag_pattern match and only there can an
+   occurrence of <<<k>>> begin.  Literals of the grammar (lit_ok) have no bad position, whatever follows them, provided what
+   follows is empty, begins with another character than '<', or is itself a bad position (a tag). *)
+Definition bad (t : string) : bool := prefixb OPEN3 t && negb (prefixb "<<<<" t).
+Definition okhead (t : string) : bool := negb (starts_lt t) || bad t.
+Fixpoint nobad (s rest : string) : bool :=
+  match s with EmptyString => true | String c s' => negb (bad (s ++ rest)%string) && nobad s' rest end.
+
+Lemma eqb_lt_char c : Ascii.eqb "<"%char c = true -> c = "<"%char.
+Proof. intros H. apply Ascii.eqb_eq in H. symmetry. exact H. Qed.
+
+Lemma match_tag_notbad t : bad t = false -> match_tag t = None.
+Proof.
+  unfold bad, match_tag. destruct (prefixb OPEN3 t) eqn:P; [|reflexivity]. cbn [andb]. intros H. apply negb_false_iff in H.
+  destruct t as [|c1 [|c2 [|c3 [|c4 t]]]]; cbn [prefixb] in H; try (repeat rewrite andb_false_r in H; discriminate).
+  repeat (apply andb_prop in H as [?H H]).
+  repeat match goal with K : Ascii.eqb "<"%char _ = true |- _ => apply eqb_lt_char in K; subst end.
+  reflexivity.
+Qed.
+
+Lemma no3_tail c s : no3 (String c s) = true -> no3 s = true.
+Proof. cbn [no3]. intros H. apply andb_prop in H as [_ H]. exact H. Qed.
+
+Ltac lt_case x :=
+  let N := fresh "N" in
+  destruct (Ascii.eqb_spec x "<"%char) as [->|N];
+  [|assert (Ascii.eqb x "<"%char = false) by (apply Ascii.eqb_neq; exact N);
+    assert (Ascii.eqb "<"%char x = false) by (rewrite Ascii.eqb_sym; assumption)].
+Ltac lt_simpl :=
+  change LT with "<"%char in *; unfold okhead, bad, OPEN3 in *; cbn [append prefixb starts_lt no3] in *;
+  repeat match goal with
+         | K : Ascii.eqb _ _ = false |- _ => rewrite K in *
+         end;
+  rewrite ?ascii_eqb_refl in *; cbn [andb orb negb] in *.
+
+Lemma nobad_lit rest : okhead rest = true -> forall s, no3 s = true -> nobad s rest = true.
+Proof.
+  intros Hr. induction s as [|c s IH]; intros H; [reflexivity|].
+  cbn [nobad]. rewrite (IH (no3_tail c s H)), andb_true_r. apply negb_true_iff. clear IH.
+  lt_case c; [|lt_simpl; reflexivity].
+  destruct s as [|c2 s].
+  - destruct rest as [|r1 [|r2 [|r3 rest]]]; try reflexivity.
+    + lt_case r1; lt_simpl; try reflexivity; try discriminate.
+    + lt_case r1; lt_case r2; lt_simpl; try reflexivity; try discriminate.
+    + lt_case r1; lt_case r2; lt_case r3; lt_simpl; try reflexivity; try discriminate.
+  - lt_case c2; [|lt_simpl; reflexivity].
+    destruct s as [|c3 s].
+    + destruct rest as [|r1 [|r2 rest]]; try reflexivity.
+      * lt_case r1; lt_simpl; try reflexivity; try discriminate.
+      * lt_case r1; lt_case r2; lt_simpl; try reflexivity; try discriminate.
+    + lt_case c3; lt_simpl; try reflexivity; try discriminate.
+Qed.
+
+Lemma lit_ok_no3 s : lit_ok s = true -> no3 s = true.
+Proof. unfold lit_ok. intros H. apply andb_prop in H as [_ H]. exact H. Qed.
+
+Lemma okhead_lit s r : lit_ok s = true -> okhead r = true -> okhead (s ++ r)%string = true.
+Proof.
+  intros Hs Hr. destruct s as [|c s]; [exact Hr|]. unfold lit_ok in Hs. apply andb_prop in Hs as [Hs _].
+  unfold okhead. cbn [append starts_lt] in *. rewrite Hs. reflexivity.
+Qed.
+
+Lemma okhead_tag body r : no_lg body = true -> okhead (OPEN3 ++ body ++ CLOSE3 ++ r)%string = true.
+Proof.
+  intros Hb. unfold okhead, bad, OPEN3. cbn [append starts_lt prefixb]. rewrite !ascii_eqb_refl. cbn [andb negb orb].
+  destruct body as [|c b].
+  - reflexivity.
+  - cbn [no_lg] in Hb. apply andb_prop in Hb as [Hc _]. unfold is_lg in Hc. apply negb_true_iff, orb_false_elim in Hc as [Hc _].
+    cbn [append prefixb]. rewrite Ascii.eqb_sym. replace (Ascii.eqb c "<"%char) with false by (symmetry; exact Hc). reflexivity.
+Qed.
+
+Lemma okhead_nl : okhead nl_str = true.
+Proof. reflexivity. Qed.
+
+Lemma no_lg_lit_ok v : no_lg v = true -> lit_ok v = true.
+Proof.
+  intros H. unfold lit_ok. apply andb_true_intro. split.
+  - destruct v as [|c v]; [reflexivity|]. cbn [no_lg] in H. apply andb_prop in H as [Hc _]. unfold is_lg in Hc.
+    apply negb_true_iff, orb_false_elim in Hc as [Hc _]. cbn [starts_lt]. rewrite Hc. reflexivity.
+  - induction v as [|c v IH]; [reflexivity|]. cbn [no_lg] in H. apply andb_prop in H as [Hc Hv]. cbn [no3]. rewrite (IH Hv), andb_true_r.
+    unfold is_lg in Hc. apply negb_true_iff, orb_false_elim in Hc as [Hc _]. unfold OPEN3. cbn [prefixb]. rewrite Ascii.eqb_sym.
+    replace (Ascii.eqb c "<"%char) with false by (symmetry; exact Hc). reflexivity.
+Qed.
+
+(* literals are closed under concatenation *)
+Lemma no3_app a b : no3 a = true -> lit_ok b = true -> no3 (a ++ b)%string = true.
+Proof.
+  intros Ha Hb. assert (K : nobad a b = true) by (apply nobad_lit; [|exact Ha]; destruct b as [|c b]; [reflexivity|]; unfold lit_ok in Hb; apply andb_prop in Hb as [Hb _]; unfold okhead; cbn [starts_lt] in *; rewrite Hb; reflexivity).
+  induction a as [|c a IH]; [exact (lit_ok_no3 b Hb)|].
+  cbn [nobad] in K. apply andb_prop in K as [_ K]. cbn [append no3]. rewrite (IH (no3_tail c a Ha) K), andb_true_r.
+  (* OPEN3 prefix of (c a ++ b): a prefix inside a, or reaching b, which does not begin with '<' *)
+  cbn [no3] in Ha. apply andb_prop in Ha as [Hp _]. apply negb_true_iff in Hp. apply negb_true_iff.
+  assert (Hd : starts_lt b = false) by (unfold lit_ok in Hb; apply andb_prop in Hb as [Hb _]; apply negb_true_iff in Hb; exact Hb).
+  clear IH K Hb.
+  lt_case c; [|lt_simpl; reflexivity].
+  destruct a as [|c2 a].
+  - destruct b as [|d b]; [reflexivity|]. lt_case d; lt_simpl; try reflexivity; try discriminate.
+  - lt_case c2; [|lt_simpl; reflexivity].
+    destruct a as [|c3 a].
+    + destruct b as [|d b]; [reflexivity|]. lt_case d; lt_simpl; try reflexivity; try discriminate.
+    + lt_case c3; lt_simpl; try reflexivity; try discriminate.
+Qed.
+
+Lemma lit_ok_app a b : lit_ok a = true -> lit_ok b = true -> lit_ok (a ++ b)%string = true.
+Proof.
+  intros Ha Hb. destruct a as [|c a]; [exact Hb|]. unfold lit_ok. rewrite (no3_app _ b (lit_ok_no3 _ Ha) Hb), andb_true_r.
+  unfold lit_ok in Ha. apply andb_prop in Ha as [Ha _]. exact Ha.
+Qed.
+
+(* a text without "<<<" has no tag *)
+Lemma no3_findall s : no3 s = true -> findall s = [].
+Proof.
+  induction s as [|c s IH]; [reflexivity|]. intros H. cbn [no3] in H. apply andb_prop in H as [Hp Hs]. apply negb_true_iff in Hp.
+  cbn [findall]. unfold match_tag. rewrite Hp. exact (IH Hs).
+Qed.
+
+Lemma prefixb_trans a : forall b c, prefixb a b = true -> prefixb b c = true -> prefixb a c = true.
+Proof.
+  induction a as [|x a IH]; intros b c H K; [destruct c; reflexivity|].
+  destruct b as [|y b]; [discriminate|]. destruct c as [|z c]; [discriminate|]. cbn [prefixb] in *.
+  apply andb_prop in H as [H1 H2]. apply andb_prop in K as [K1 K2]. apply Ascii.eqb_eq in H1, K1. subst.
+  rewrite ascii_eqb_refl. cbn [andb]. exact (IH b c H2 K2).
+Qed.
+
+Lemma prefixb_trans3 p s : prefixb OPEN3 p = true -> prefixb p s = true -> prefixb OPEN3 s = true.
+Proof. apply prefixb_trans. Qed.
+
+Lemma no3_contains p s : prefixb OPEN3 p = true -> no3 s = true -> contains p s = false.
+Proof.
+  intros Hp. induction s as [|c s IH]; intros H.
+  - cbn [contains]. destruct p as [|a p]; [discriminate|]. reflexivity.
+  - cbn [no3] in H. apply andb_prop in H as [H1 H2]. apply negb_true_iff in H1.
+    change (contains p (String c s)) with (prefixb p (String c s) || contains p s). rewrite (IH H2), orb_false_r.
+    destruct (prefixb p (String c s)) eqn:E; [|reflexivity]. rewrite (prefixb_trans3 p _ Hp E) in H1. discriminate.
+Qed.
+
+Lemma sub_go_lit d rest : forall s, nobad s rest = true -> sub_go d 0 (s ++ rest)%string = (s ++ sub_go d 0 rest)%string.
 Proof.
   induction s as [|c s IH]; intros H; [reflexivity|].
-  simpl in H. apply andb_prop in H as [Hc Hs]. unfold is_lg in Hc. apply negb_true_iff, orb_false_elim in Hc as [Hc _].
-  change ((String c s ++ r)%string) with (String c (s ++ r)%string).
-  cbn [sub_go]. rewrite (match_tag_nolt c _ Hc). rewrite IH by assumption. reflexivity.
+  cbn [nobad] in H. apply andb_prop in H as [Hb Hs]. apply negb_true_iff in Hb.
+  change ((String c s ++ rest)%string) with (String c (s ++ rest)%string) in *.
+  cbn [sub_go]. rewrite (match_tag_notbad _ Hb). rewrite IH by assumption. reflexivity.
 Qed.
 
 Lemma sub_go_tag d body r :
@@ -107,23 +244,40 @@ Proof.
     destruct (lookup String.eqb n a); reflexivity.
 Qed.
 
-Lemma sub_go_render (a : assign) l r :
-  line_ok l = true -> sub_go a 0 (render_body l ++ r)%string = (render_body (subst a l) ++ sub_go a 0 r)%string.
+Lemma okhead_render l r : line_ok l = true -> okhead r = true -> okhead (render_body l ++ r)%string = true.
 Proof.
-  induction l as [|g l IH]; intros H; [reflexivity|].
+  induction l as [|g l IH]; intros H Hr; [exact Hr|].
+  simpl in H. apply andb_prop in H as [Hg Hl]. cbn [render_body]. rewrite app_assoc_s.
+  destruct g as [s|n dflt].
+  - cbn [render_seg]. apply okhead_lit; [exact Hg|exact (IH Hl Hr)].
+  - assert (E : exists body, render_seg (Tag n dflt) = (OPEN3 ++ body ++ CLOSE3)%string /\ no_lg body = true).
+    { destruct dflt as [d|]; simpl in Hg.
+      - apply andb_prop in Hg as [Hg Hd]. apply andb_prop in Hg as [Hn _]. exists (n ++ String EQ d)%string. split.
+        + simpl. rewrite !app_assoc_s. reflexivity.
+        + rewrite no_lg_app. simpl. rewrite Hn, Hd. reflexivity.
+      - apply andb_prop in Hg as [Hn _]. exists n. split; [reflexivity|exact Hn]. }
+    destruct E as (body & E & Hb). rewrite E, !app_assoc_s. apply okhead_tag. exact Hb.
+Qed.
+
+Lemma sub_go_render (a : assign) l r :
+  line_ok l = true -> okhead r = true ->
+  sub_go a 0 (render_body l ++ r)%string = (render_body (subst a l) ++ sub_go a 0 r)%string.
+Proof.
+  induction l as [|g l IH]; intros H Hr; [reflexivity|].
   simpl in H. apply andb_prop in H as [Hg Hl].
   cbn [render_body subst map]. rewrite !app_assoc_s.
   destruct g as [s|n dflt].
-  - simpl in Hg. cbn [render_seg subst_seg]. rewrite (sub_go_lit a s _ Hg). rewrite (IH Hl). reflexivity.
+  - simpl in Hg. cbn [render_seg subst_seg].
+    rewrite (sub_go_lit a _ s (nobad_lit _ (okhead_render l r Hl Hr) s (lit_ok_no3 s Hg))). rewrite (IH Hl Hr). reflexivity.
   - destruct (replace_one_seg a n dflt Hg) as (body & E & Hb & R).
-    rewrite E, !app_assoc_s. rewrite (sub_go_tag a body _ Hb). rewrite R, (IH Hl). reflexivity.
+    rewrite E, !app_assoc_s. rewrite (sub_go_tag a body _ Hb). rewrite R, (IH Hl Hr). reflexivity.
 Qed.
 
 (* every line of the syntax: replaceUserTags replaces each tag on its own *)
 Lemma replaceUserTags_render (a : assign) l :
   line_ok l = true -> replaceUserTags (render_line l) a = ref_line a l.
 Proof.
-  intros H. unfold replaceUserTags, render_line, ref_line, render_line. rewrite (sub_go_render a l nl_str H). reflexivity.
+  intros H. unfold replaceUserTags, render_line, ref_line, render_line. rewrite (sub_go_render a l nl_str H okhead_nl). reflexivity.
 Qed.
 
 (* ---------------------------------------------------------------- replace_all *)
